@@ -522,11 +522,20 @@ Proof.
   intros (_ & _ & _ & Hp & Hc) Hk Hpp. unfold pok, cache_sub, clook in *. rewrite Hk, Hpp. auto.
 Qed.
 
-Lemma part_open_J w cur id f r w1 : J w cur -> not_store_fault f ->
-  part_open tmp_handle id f w = Some (r, w1) -> opened w cur id f r w1.
+Lemma inner_view_false w : inner_view false w = w_inner w.
+Proof. unfold inner_view. destruct (w_ikind w), (w_tx w); reflexivity. Qed.
+
+Lemma inner_view_notsql b w : w_ikind w <> ISql -> inner_view b w = w_inner w.
+Proof. unfold inner_view. destruct (w_ikind w), (w_tx w); try reflexivity; intros H; exfalso; apply H; reflexivity. Qed.
+
+(* a reader that sees the committed inner content (every reader outside the write transaction; every reader of
+   the filesystem store) *)
+Lemma part_open_in_J intx w cur id f r w1 : J w cur -> not_store_fault f ->
+  (forall w0, w_ikind w0 = w_ikind w -> w_tx w0 = w_tx w -> inner_view intx w0 = w_inner w0) ->
+  part_open_in intx tmp_handle id f w = Some (r, w1) -> opened w cur id f r w1.
 Proof.
-  intros HJ Hf H. pose proof HJ as (Hi & Hs & Hh & Hp & Hc).
-  unfold part_open in H. rewrite Hh in H. cbn [nlookup] in H.
+  intros HJ Hf Hview H. pose proof HJ as (Hi & Hs & Hh & Hp & Hc).
+  unfold part_open_in in H. rewrite Hh in H. cbn [nlookup] in H.
   pose proof (L_get id (w_c w)) as Hg. destruct (c_get id (w_c w)) as [c rd]. cbn [fst snd] in Hg.
   destruct Hg as (Hk & Hpp & Hr).
   assert (pok c /\ cache_sub c cur) as [Hpc Hcc].
@@ -537,6 +546,7 @@ Proof.
       [apply Hc, Hv | rewrite Hh; reflexivity | exact Hs | exact Hi | exact Hk | exact Hpp
       | rewrite Hpp; exact Hrest | rewrite Hpp; exact Hread].
   - assert (J (set_c c w) cur) as HJ1 by (repeat split; auto).
+    rewrite (Hview (set_c c w) eq_refl eq_refl) in H.
     cbn [set_c w_inner w_hints w_c w_handles w_sets w_nextsid] in H. rewrite Hi in H.
     destruct f as [|k| |j]; try contradiction.
     + (* no fault *)
@@ -561,6 +571,10 @@ Proof.
         -- intros k' N. cbn. unfold nos, clook in *. rewrite <- Hk, <- Hpp. apply B4, N.
     + inversion H; subst. apply op_err; [reflexivity | exact HJ1].
 Qed.
+
+Lemma part_open_J w cur id f r w1 : J w cur -> not_store_fault f ->
+  part_open tmp_handle id f w = Some (r, w1) -> opened w cur id f r w1.
+Proof. intros HJ Hf H. eapply part_open_in_J; eauto. intros w0 _ _. apply inner_view_false. Qed.
 
 Lemma aremove_absent {A} k (l : list (bytes * A)) : alookup k l = None -> aremove k l = l.
 Proof.
